@@ -177,6 +177,9 @@ pub struct File {
     pub defs: Vec<Def>,
     pub comments: Vec<Comment>,
     pub strings: Vec<(usize, usize)>,
+    /// constructs the language definitely rejects but which the parser read past so that the
+    /// remaining facts stay available (C10 reports them; other checks ignore them)
+    pub syntax_issues: Vec<String>,
 }
 
 impl File {
